@@ -1,6 +1,6 @@
 import SecsModel.Model.Ctrl
 import SecsModel.Spec.E30Control
-import SecsModel.Proofs.SMGen
+import SecsModel.Proofs.SMDefs
 /-!
 # Proofs.Ctrl — the abstraction from the control-state model to the E30 table, and the finite obligations behind C11
 -/
